@@ -545,7 +545,11 @@ func Run(cfg *hx.Config) error {
 	}
 	// how far the tail has to move: a member at position p of n leaves with n-p members behind it
 	// (1, 2, 127, 128, 129, 130, 200, ... behind), the broadcast must still list the rest in join order
-	for _, n := range []int{130, 131, 132, 200, 258, 259, 300, 400} {
+	shiftN := []int{130, 131, 132, 259}
+	if cfg.Tier == "thorough" {
+		shiftN = []int{130, 131, 132, 200, 258, 259, 300, 400}
+	}
+	for _, n := range shiftN {
 		seen := map[int]bool{}
 		for _, p := range []int{2, 3, n / 3, n - 130, n - 129, n - 128, n - 127, n - 2, n - 1} {
 			if p < 2 || p >= n || seen[p] {
